@@ -281,21 +281,18 @@ Definition put_post (meth : string) : Prop := meth = "PUT"%string \/ meth = "POS
 
 (* the statement without the bound on the bursts is false: MeterConfig.pburst is an int64 *)
 Lemma c19_programs_up4_refuted :
-  ~ (forall (meth : string) (d : doc) (slice_id tc : N),
-       put_post meth -> wf_doc d -> slice_id < 16 -> tc < 4 ->
-       rate_ok (d_ul d) (d_unit d) -> rate_ok (d_dl d) (d_unit d) ->
-       r_writes (serve (Up4 slice_id tc) meth (Decoded d)) =
-       up4_meter_spec slice_id tc (d_ul d * unit_of (d_unit d)) (d_dl d * unit_of (d_unit d))
-                      (d_ulb d) (d_dlb d)).
+  exists (meth : string) (d : doc) (slice_id tc : N),
+    put_post meth /\ wf_doc d /\ slice_id < 16 /\ tc < 4 /\
+    rate_ok (d_ul d) (d_unit d) /\ rate_ok (d_dl d) (d_unit d) /\
+    r_writes (serve (Up4 slice_id tc) meth (Decoded d)) <>
+    up4_meter_spec slice_id tc (d_ul d * unit_of (d_unit d)) (d_dl d * unit_of (d_unit d))
+                   (d_ulb d) (d_dlb d).
 Proof.
-  intros A.
-  specialize (A "POST"%string (Doc "s" 1 1 "Mbps" 1000 (2 ^ 63) []) 0 3).
-  assert (H1 : put_post "POST") by now right.
-  assert (H2 : wf_doc (Doc "s" 1 1 "Mbps" 1000 (2 ^ 63) [])) by (unfold wf_doc; cbn; lia).
-  assert (H3 : 0 < 16) by lia. assert (H4 : 3 < 4) by lia.
-  assert (H5 : rate_ok 1 "Mbps") by (unfold rate_ok; cbn; lia).
-  specialize (A H1 H2 H3 H4 H5 H5).
-  vm_compute in A. discriminate A.
+  exists "POST"%string, (Doc "s" 1 1 "Mbps" 1000 (2 ^ 63) []), 0, 3.
+  split; [now right|]. split; [unfold wf_doc; cbn; lia|].
+  split; [lia|]. split; [lia|].
+  split; [unfold rate_ok; cbn; lia|]. split; [unfold rate_ok; cbn; lia|].
+  vm_compute. discriminate.
 Qed.
 
 Lemma c19_error_untouched (dp : datapath) (meth : string) (b : body) :
